@@ -1,5 +1,6 @@
 SPECIFICATION Spec
 CONSTANTS
+  DataLens = {0, 1, 54, 55, 56, 64}
   HashBits = {0, 1, 7, 8, 128, 255}
   SignBits = {0, 7, 255, 256, 511, 512, 519}
   SourceBits = {0, 16, 17, 100, 335}
